@@ -31,6 +31,7 @@ static void run(Src &s) {
   GOpts o;
   o.allowed_di = {0, 1, 2, 3};  // NONBLANK and BLANK classes
   o.header_trail = false;       // a header's trailing comment is nobody's "comment of its line"
+  o.cont_after_quoted = true;   // "quoted" first line followed by continuation lines: the value does not start with a quote
   o.max_lines = 30;
   GFile f = gen_file(s, o);
   size_t how = s.weighted({60, 20, 10, 10});  // absolute, relative, ./relative, sub/../relative
@@ -123,7 +124,7 @@ static void run(Src &s) {
     {
       std::vector<std::string> want;
       if (f.cls != DC_NONE) {
-        if (en.quoted || en.verbatim_quote)
+        if ((en.quoted && en.last_line == en.first_line) || en.verbatim_quote)
           want = {trim_blanks(en.raw_value)};
         else
           want = en.lines_trimmed;
